@@ -635,7 +635,6 @@ func (c *MJSocialElementComponent) Render(w io.StringWriter) error {
 			return err
 		}
 
-		// Image without link in vertical mode (as per MRML output)
 		heightAttr := stripPxSuffix(iconHeight)
 		widthAttr := stripPxSuffix(iconSize)
 
@@ -650,7 +649,22 @@ func (c *MJSocialElementComponent) Render(w io.StringWriter) error {
 			AddStyle("border-radius", borderRadius).
 			AddStyle("display", "block")
 
-		if err := img.RenderVoid(w); err != nil {
+		// The element's link is kept in vertical mode too (around the icon and around the text), as MJML does
+		if href != "" {
+			link := html.NewHTMLTag("a").
+				AddAttribute("href", href).
+				AddAttribute("target", target)
+			c.addRel(link)
+			if err := link.RenderOpen(w); err != nil {
+				return err
+			}
+			if err := img.RenderVoid(w); err != nil {
+				return err
+			}
+			if err := link.RenderClose(w); err != nil {
+				return err
+			}
+		} else if err := img.RenderVoid(w); err != nil {
 			return err
 		}
 
@@ -678,8 +692,15 @@ func (c *MJSocialElementComponent) Render(w io.StringWriter) error {
 				return err
 			}
 
-			// Text content with span (no link in vertical mode as per MRML)
-			textSpan := html.NewHTMLTag("span").
+			// Text content: a link when the element has one, a span otherwise
+			textSpan := html.NewHTMLTag("span")
+			if href != "" {
+				textSpan = html.NewHTMLTag("a").
+					AddAttribute("href", href).
+					AddAttribute("target", target)
+				c.addRel(textSpan)
+			}
+			textSpan.
 				AddStyle("color", c.getAttribute("color")).
 				AddStyle("font-size", c.getAttribute("font-size")).
 				AddStyle("font-family", c.getAttribute("font-family")).
